@@ -674,3 +674,19 @@ case('c10-so3-lerp-no-renorm', ['C10'], ['C10.unit'],
            "            let _ = norm;"))
 case('c10-so3-slerp-wrong-denominator', ['C10'], ['C10.unit'],
      (SO3, "            let s0 = ((1.0 - t) * theta).sin() / sin_theta;", "            let s0 = ((1.0 - t) * theta).sin() / theta;"))
+case('c12-so2-normalise-shifted', ['C12', 'C10'], ['C12.congruent'],
+     ('oxmpl/src/base/states/so2_state.rs', "            value: (self.value + PI).rem_euclid(2.0 * PI) - PI,", "            value: self.value.rem_euclid(2.0 * PI) - PI,"))
+case('c10-so3-nlerp-everywhere', ['C10'], ['C10.speed'],
+     (SO3, "            let s0 = ((1.0 - t) * theta).sin() / sin_theta;\n            let s1 = (t * theta).sin() / sin_theta * sign;",
+           "            let _ = (theta, sin_theta);\n            let n0 = 1.0 - t;\n            let n1 = t * sign;\n            let nn = (n0 * n0 + n1 * n1 + 2.0 * n0 * n1 * sign * dot).sqrt();\n            let s0 = n0 / nn;\n            let s1 = n1 / nn;"))
+
+# ---------------------------------------------------------------- round 12
+for _k in (1, 2, 3, 4, 5):
+    benign_patch('ben34-r%d' % _k, ['C19', 'C20', 'C08'])       # bindings: generic call_is_valid helpers, states_to_py_list, Option chains / let-else in from_js_value, JsGoal::method + map_or_else, checker Arc hoisted above the match
+    benign_patch('ben35-r%d' % _k, ALL)                         # spaces: quat_dot / with_bounds, norm() accessors, assert_dimension + zip + collect::<Result<Vec>>, weighted_norm fold, generic downcast helpers + static inner calls + guard-arm constructors
+CASES.append({'name': 'ben35r5-length-test-weakened', 'props': ['C12'], 'expect': ['C12.count'], 'patch': '/verif/selftest/benign/ben35-r5.diff',
+              'edits': [('oxmpl/src/base/spaces/se3_state_space.rs', 'if bounds.len() != 3 {', 'if bounds.len() > 3 {')]})
+CASES.append({'name': 'ben34r4-distance-fallback-zero', 'props': ['C20'], 'expect': ['C20.goal'], 'patch': '/verif/selftest/benign/ben34-r4.diff',
+              'edits': [('oxmpl-js/src/base/goal.rs', '                UNKNOWN_GOAL_DISTANCE\n            },', '                0.0\n            },')]})
+CASES.append({'name': 'ben35r3-sampler-folds-the-draw', 'props': ['C14', 'C11'], 'expect': ['C14.draw'], 'patch': '/verif/selftest/benign/ben35-r3.diff',
+              'edits': [('oxmpl/src/base/spaces/real_vector_state_space.rs', '        Ok(rng.random_range(lower..upper))', '        Ok(rng.random_range(lower..upper).max(0.5 * (lower + upper)))')]})
